@@ -69,7 +69,11 @@ def chain_case(draw, tier="quick"):
             "wf_ps": draw(st.sampled_from(["none", "none", "same"])),
             "target": draw(st.sampled_from(["same", "same", "larger", "smaller"])),
             "weight": draw(st.sampled_from([1, 1, 0, -1.5, 0.25, 7])), "fill_seed": draw(st.integers(0, 2**31 - 1)),
-            "prefill": draw(st.booleans())}
+            "prefill": draw(st.booleans()),
+            # optionally a tilt-class plane at the end of the chain; like every plane it may carry a (scalar)
+            # amplitude - a grism's throughput - and OPD - a piston
+            "tilt_plane": draw(st.sampled_from([None, None, {"cls": "Tilt"}, {"cls": "DispersiveTilt"}, {"cls": "Grism"}])),
+            "tilt_amp": draw(st.sampled_from([None, 0.8, 0.5])), "tilt_opd": draw(st.sampled_from([None, 0.1, -0.3]))}
 
 
 def make_plane(cls, d, ps, wl):
@@ -213,6 +217,26 @@ def phasor_chain(case, ctx):
                                 f"after plane {i} ({case['cls']}: amp {d['amp_form']}, opd {d['opd_form']}, mask "
                                 f"{d['mask_form']}) the field differs from model*amp*mask*exp(2 pi i opd/lambda) by "
                                 f"{cm.max_abs(got - model) if got.shape == model.shape else got.shape}")
+    tp = case.get("tilt_plane")
+    if tp is not None and model is not None:
+        kw = {}
+        if case.get("tilt_amp") is not None:
+            kw["amplitude"] = case["tilt_amp"]
+        if case.get("tilt_opd") is not None:
+            kw["opd"] = case["tilt_opd"] * wl
+        with lentil_call("C07.multiply", f"{tp['cls']}({', '.join(kw) or 'defaults'}) multiply"):
+            if tp["cls"] == "Tilt":
+                tplane = lentil.Tilt(x=1e-6, y=-2e-6, **kw)
+            else:
+                import warnings as _w
+                with _w.catch_warnings():
+                    _w.simplefilter("ignore")
+                    tplane = getattr(lentil, tp["cls"])(trace=[0.5, 0.0], dispersion=[1e-3, wl], **kw)
+            w = w * tplane
+        model = model * (kw.get("amplitude", 1.0) * np.exp(2j * np.pi * kw.get("opd", 0.0) / wl))
+        ctx.tag("tilt_plane:" + tp["cls"], "tilt_plane_scalars" if kw else None)
+        if w.wavelength != wl or w.focal_length != cur_f:
+            raise Violation("C07.meta.tilt_plane", "a tilt plane changed the wavelength / focal length")
     ctx.tag(case["cls"], *["form:" + f for f in forms], f"n_planes:{len(case['planes'])}",
             "3d_mask" if any(d["mask_form"] == "3d" for d in case["planes"]) else None,
             "weight:" + str(case["weight"]), "target:" + case["target"],
